@@ -309,8 +309,13 @@ impl<L: Language, N: Analysis<L>> EGraph<L, N> {
                 // That is no permutation of the class slots: it proves the class slot redundant.
                 // union_internal handles this (it shrinks the class and re-queues its usages).
                 if a.slots() != b.slots() {
-                    self.union_internal(&a, &b, proof);
-                    return;
+                    if self.union_internal(&a, &b, proof) {
+                        // the class lost a slot. The other variants have to be looked at again
+                        // (a further slot may be exchangeable with a redundant one now), with
+                        // up-to-date data.
+                        return self.determine_self_symmetries(src_id);
+                    }
+                    continue;
                 }
 
                 // `proof` shows id[a.m] = id[b.m], i.e. id[identity] = id[b.m * a.m^-1].
